@@ -123,5 +123,14 @@ def check(ctx):
     from .c13 import timer_discipline
     for cls in classes:
         timer_discipline(ctx, a, cls, regs=("windowPublish", "windowPubRelease"), r_cancel="Q-TIMER", r_arm="Q-TIMER")
+    # the identifier of a QoS 2 exchange stays reserved until PUBCOMP: the allocator must look at both publisher windows
+    from .c17 import allocator_reads
+    for fq, regs in sorted(allocator_reads(a).items()):
+        need = {"windowPublish", "windowPubRelease"}
+        f = a.prog.funcs.get(fq)
+        ctx.ob("Q-ID", "%s keeps identifiers of exchanges awaiting PUBREC/PUBCOMP reserved" % short(fq), need <= regs,
+               where="%s:%d" % (f.file, f.node.lineno) if f else "", function=fq, construct="%s/reserved-until-pubcomp" % fq,
+               msg="the identifier allocator does not look at %s: after the counter wraps, a new PUBLISH can be written with the identifier of an "
+                   "exchange whose PUBREL is still unanswered" % sorted(need - regs))
     ctx.count("pubrel_creation_sites", nrel)
     ctx.floor("PUBREL creation events", nrel, 2)
